@@ -121,6 +121,9 @@ FIXED = [
     ("C04", "C04/request-failed:gopher:plain", "b0f5438",
      "ZIP handler enabled and a *.zip file that holds an end-of-central-directory record but no readable directory (the last 22 "
      "bytes of an archive): is_zipfile() says yes, VFSZip() raises BadZipFile, connection closed without a reply in every protocol"),
+    ("C13", "C13/gopher-menu-line-broken-by-content", "c0c5532",
+     "a file whose name holds CR LF followed by block-header text ('n\r\n+ADMIN:\r\n Admin: Mallory'): the name went into the "
+     "menu line and the +INFO line as it was, so the Gopher+ listing of its directory showed a block (or an item) of the name's making"),
     ("C16", "C16/differs:dir:menu-vs-any:gopher", "80ca1cd",
      "a gophermap inside an archive linking a member directory with a trailing slash ('1Docs<TAB>docs/'): the sidecar look-up "
      "'docs//.abstract' succeeds on disk and fails in the archive, so the directory's abstract/keywords blocks are lost there"),
